@@ -143,5 +143,100 @@ inductive Act where
   | lamSq (cond px qx rx lam : Nat)
 deriving Repr, BEq
 
+/-- Value copied in the condition column: the bit, or its negation (`p_native − 1`, rendered
+`-1`) for a slope between `p` and `−r`. -/
+inductive Cond where
+  | off
+  | on
+  | neg
+deriving Repr, BEq
+
+def condOf (b : Bool) : Cond := if b then .on else .off
+def condNeg (b : Bool) : Cond := if b then .neg else .off
+
+/-- `assign` of a witness point: `on_curve` under `cond = ¬is_id`. -/
+def assignActs (P : WPt) : List (Cond × Act) :=
+  let P := E.canon P
+  [(condOf (!P.isId), .onCurve 0 P.x P.y)]
+
+/-- `assert_double(p, r, cond)`: `tangent`, `lambda_squared(p,p,r)`, `slope(p, −r)`. The witnessed
+`λ` does not depend on `cond`. -/
+def assertDoubleActs (c : Bool) (P R : WPt) : List (Cond × Act) :=
+  let lam := E.tangentLambda P
+  [(condOf c, .tangent 0 P.x P.y lam), (condOf c, .lamSq 0 P.x P.x R.x lam),
+   (condNeg c, .slope 0 P.x P.y R.x R.y lam)]
+
+/-- `assert_add(p, q, r, cond)`: `slope(p,q)`, `lambda_squared(p,q,r)`, `slope(p, −r)`. -/
+def assertAddActs (c : Bool) (P Q R : WPt) : List (Cond × Act) :=
+  let lam := E.chordLambda P Q
+  [(condOf c, .slope 0 P.x P.y Q.x Q.y lam), (condOf c, .lamSq 0 P.x Q.x R.x lam),
+   (condNeg c, .slope 0 P.x P.y R.x R.y lam)]
+
+/-- `add(p, q)`: the doubling assertions under `px = qx ∧ py = qy ∧ none is the identity`, then
+the addition assertions under `px ≠ qx ∧ none is the identity`. -/
+def addActs (P Q : WPt) : List (Cond × Act) :=
+  let R := E.add P Q
+  let none := !(P.isId || Q.isId || R.isId)
+  E.assertDoubleActs (P.x == Q.x && P.y == Q.y && none) P R ++
+    E.assertAddActs (!(P.x == Q.x) && none) P Q R
+
+/-- `double(p)`: the doubling assertions under `¬ p.is_id`. -/
+def doubleActs (P : WPt) : List (Cond × Act) :=
+  E.assertDoubleActs (!P.isId) P (E.double P)
+
+/-! ## Number of custom-gate activations of the multiplication instructions -/
+
+/-- Activations of `on_curve`, `slope`, `tangent`, `lambda_squared`. -/
+structure Shape where
+  oc : Nat := 0
+  sl : Nat := 0
+  tg : Nat := 0
+  ls : Nat := 0
+deriving Repr, BEq
+
+instance : Add Shape := ⟨fun a b => ⟨a.oc + b.oc, a.sl + b.sl, a.tg + b.tg, a.ls + b.ls⟩⟩
+def Shape.scale (k : Nat) (a : Shape) : Shape := ⟨k * a.oc, k * a.sl, k * a.tg, k * a.ls⟩
+
+/-- `double`: one tangent, one λ², one slope. -/
+def shDouble : Shape := { sl := 1, tg := 1, ls := 1 }
+/-- `incomplete_add`: two slopes, one λ². -/
+def shIncAdd : Shape := { sl := 2, ls := 1 }
+/-- `add`: `assert_double` + `assert_add`. -/
+def shAdd : Shape := { sl := 3, tg := 1, ls := 2 }
+/-- `assign`: one `on_curve`. -/
+def shAssign : Shape := { oc := 1 }
+
+def popcount : Nat → Nat → Nat
+  | 0, _ => 0
+  | f + 1, n => if n = 0 then 0 else n % 2 + popcount f (n / 2)
+
+/-- `mul_by_u128(n, ·)`: `bitlen(n) − 1` doublings and `popcount(n) − 1` incomplete additions. -/
+def shMulByU128 (n : Nat) : Shape :=
+  if n = 0 then {} else
+  shDouble.scale n.log2 + shIncAdd.scale (popcount (n.log2 + 1) n - 1)
+
+/-- `windowed_msm::<4>` with `l` bases and `w` windows: the blinding point `r` (assigned,
+on-curve), `l·r` and `15·r`, the tables (15 incomplete additions per base), `w` iterations of
+4 doublings and `l` incomplete additions, the final complete addition of `−l·r`. -/
+def shWindowed (l w : Nat) : Shape :=
+  if l = 0 then {} else
+  shAssign + shMulByU128 l + shMulByU128 15 + shIncAdd.scale (15 * l) +
+    (shDouble.scale 4 + shIncAdd.scale l).scale w + shAdd
+
+/-- `mul_by_constant(s, ·)` (`s` reduced). -/
+def shMulByConstant (s : Nat) : Shape :=
+  if s < 2 ^ 128 then shMulByU128 (u128OfDigits s) else shWindowed 1 ((s.log2 + 1 + 3) / 4)
+
+/-- `msm_by_bounded_scalars` with distinct scalars and bases: a scalar whose bound exceeds
+`⌈NUM_BITS/2⌉ + 4` is split by GLV into two `⌈NUM_BITS/2⌉`-bit scalars. -/
+def shMsmBounded (bounds : List Nat) : Shape :=
+  let half := (E.scalarBits + 1) / 2
+  let parts := bounds.flatMap (fun b => if b > half + 4 then [half, half] else [b])
+  shWindowed parts.length (parts.foldl (fun m b => max m ((b + 3) / 4)) 0)
+
+/-- `msm_by_le_bits` with bit strings of the given lengths. -/
+def shMsmBits (lens : List Nat) : Shape :=
+  shWindowed lens.length (lens.foldl (fun m b => max m ((b + 3) / 4)) 0)
+
 end WCurve
 end MidnightZK.C06
